@@ -38,15 +38,17 @@ def vendor_value(m, pid, ac):
     return list(outs[1])
 
 
-def check_history(ctx, rep, profile, ops, lose=(), ext=None):
+def check_history(ctx, rep, profile, ops, lose=(), ext=None, lose_state=()):
     m = ctx.model
-    dev = P.PropDevice(m, profile, lose, ext)
+    dev = P.PropDevice(m, profile, lose, ext, lose_state)
     adv = [cid for cid, _ in P.PROFILES[profile]]
     full = [CAPS] + list(ops)
     st, dmp, cnt, sent, ac = P.run_impl(full, dev)
     inp = {"profile": profile, "ops": full}
     if lose:
         inp["acknowledgement_lost_for_property_writes"] = sorted(lose)
+    if lose_state:
+        inp["answer_lost_for_set_state_commands"] = sorted(lose_state)
     if ext:
         inp["changed_on_the_appliance_by_someone_else_before_property_query_no"] = {str(k): [(hex(i), v) for i, v in x] for k, x in ext.items()}
     rep.case((profile, tuple(ops), tuple(lose)), profile + ("-ack-lost" if lose else ""))
@@ -57,7 +59,7 @@ def check_history(ctx, rep, profile, ops, lose=(), ext=None):
     pending, beep = set(), 0
     log = list(dev.log)
     # re-run bookkeeping op by op using the recorded per-request log: count requests per op
-    dev2 = P.PropDevice(m, profile, lose, ext)
+    dev2 = P.PropDevice(m, profile, lose, ext, lose_state)
     C, AC = D.mods()
     C.Command._message_id = 0
     ac2 = AC(ip="10.0.0.1", device_id=123456, port=6444)
@@ -183,9 +185,16 @@ def run(ctx, rep):
                 continue
             on = vals[-1] if op not in (25, 26, 27, 30) else 1
             external.append((profile, [(op, on), APPLY, REFRESH, REFRESH, APPLY, REFRESH, APPLY], (), {1: [(pid, OFF[pid])]}))
+    # the answer to the state command of an apply is lost: the property write of that apply is still transmitted (once)
+    nostate = []
+    for profile in P.PROFILES:
+        for op, (name, vals) in SETTERS.items():
+            if op == 10:
+                continue
+            nostate.append((profile, [(op, vals[-1]), APPLY, REFRESH, APPLY, REFRESH], (), None, (0,)))
     cases, impl = [], []
-    for profile, ops, lose, ext in [h + ((), None) for h in hist] + [l + (None,) for l in lossy] + external:
-        r = check_history(ctx, rep, profile, ops, lose, ext)
+    for profile, ops, lose, ext, ls in [h + ((), None, ()) for h in hist] + [l + (None, ()) for l in lossy] + [e + ((),) for e in external] + nostate:
+        r = check_history(ctx, rep, profile, ops, lose, ext, ls)
         if r is not None:
             cases.append((r[0], r[1], 0))
             impl.append(r)
